@@ -19,6 +19,7 @@ PROFILE = {
     'batches': [0, 1, 1, 2, 2, 3, 4, 6],
     'delta': [0, 0, 0, 1, -1, 2],
     'target_only': ['True', 'True', 'True', 'False'],
+    'more_runs': 0.08,
     'cli_extra': {
         'include_noise_baseline_features': lambda rng, wl: 'True' if rng.random() < 0.06 else None,
         'interaction_order': lambda rng, wl: 2 if 3 <= len(wl['header']) <= 5 and rng.random() < 0.08 else None,
